@@ -17,7 +17,7 @@ Fixpoint wf_body (d : list N) (b : body) : Prop :=
 (* every variable of every leaf is let through by the filter right above it *)
 Fixpoint closed_in (d : list N) (b : body) : Prop :=
   match b with
-  | BSrc t => incl (vars t) d
+  | BSrc t => incl (svars t) d
   | BMerge b1 d1 b2 d2 => closed_in d1 b1 /\ closed_in d2 b2
   | BInd _ => False
   end.
@@ -54,14 +54,14 @@ Definition coherent (st : state) (rid : nat) : Prop :=
    that returns exactly the variables occurring in a body (part A proves this of free_vars.rs) *)
 Definition faithful (c : cfg) : Prop :=
   c_unknown c = u /\ c_revert c = RevFresh /\ c_patch c = PAssert /\ c_wrap_dyn c = false /\
-  (u = false -> forall t x, In x (c_an c t) <-> In x (vars t)).
+  (u = false -> forall t x, In x (c_an c t) <-> In x (svars t)).
 
 (* ------------------------------------------------------------------------- abstraction *)
 Fixpoint abs_body (d : list N) (b : body) : sbody :=
   match b with
   | BSrc t => SLeaf d t
   | BMerge b1 d1 b2 d2 => SMerge2 (abs_body d1 b1) (abs_body d2 b2)
-  | BInd _ => SLeaf [] (Num 0)          (* outside the invariant *)
+  | BInd _ => SLeaf [] (STm (Num 0))    (* outside the invariant *)
   end.
 
 (* [keys]: the field names of the record the thunk belongs to (the scope of a thunk whose
@@ -76,7 +76,7 @@ Definition abs_thunk (keys : list N) (th : thunk) : sbody :=
 Definition abs_tid (ths : list thunk) (keys : list N) (tid : nat) : sbody :=
   match nth_error ths tid with
   | Some th => abs_thunk keys th
-  | None => SLeaf [] (Num 0)             (* dangling: outside the invariant *)
+  | None => SLeaf [] (STm (Num 0))       (* dangling: outside the invariant *)
   end.
 
 Definition abs_fld (ths : list thunk) (keys : list N) (f : ifld) : sfld :=
@@ -151,7 +151,7 @@ Qed.
 Lemma ievalb_ext : forall ind b rho rho', (forall x, rho x = rho' x) -> ievalb ind rho b = ievalb ind rho' b.
 Proof.
   intros ind. induction b as [t|b1 IH1 d1 b2 IH2 d2|tid]; intros rho rho' H; cbn [ievalb].
-  - apply eval_tm_ext. intros x _. apply H.
+  - apply eval_src_ext. intros x _. apply H.
   - rewrite (IH1 (scoped d1 rho) (scoped d1 rho')), (IH2 (scoped d2 rho) (scoped d2 rho')); [reflexivity| |];
       intros x; unfold scoped; rewrite H; reflexivity.
   - reflexivity.
@@ -164,7 +164,7 @@ Lemma ievalb_abs : forall ind b d rho look,
   ievalb ind rho b = seval_body look (abs_body d b).
 Proof.
   intros ind. induction b as [t|b1 IH1 d1 b2 IH2 d2|tid]; intros d rho look Hwf Hrho; cbn [ievalb abs_body seval_body].
-  - apply eval_tm_ext. intros x _. apply Hrho.
+  - apply eval_src_ext. intros x _. apply Hrho.
   - cbn [wf_body] in Hwf. destruct Hwf as (Hi1 & Hi2 & Hw1 & Hw2).
     rewrite (IH1 d1 (scoped d1 rho) look Hw1), (IH2 d2 (scoped d2 rho) look Hw2); [reflexivity| |].
     + intros x. unfold scoped at 1. rewrite Hrho. fold (scoped d2 (scoped d look) x). apply scoped_incl. exact Hi2.
@@ -174,7 +174,7 @@ Qed.
 
 (* ------------------------------------------------------------------------- refinement of reads *)
 Lemma apply_ctrs_fuel : forall cs, apply_ctrs OutOfFuel cs = OutOfFuel.
-Proof. destruct cs as [|[k oc] cs]; reflexivity. Qed.
+Proof. destruct cs as [|[[|] oc] cs]; reflexivity. Qed.
 
 Lemma ithunk_abs : forall st rid r n tid,
   nth_error (recs st) rid = Some r ->
